@@ -134,6 +134,57 @@ CLAIMED = {
         design='§6 C16',
         note=COMMON_NOTE + 'Theorems are about serial histories (no lifecycle call issued while another is in progress), which is where the property can hold: overlapping calls interfere through transitions\' cancellation of in-flight triggers — known finding F-A2 (open), matched by violation kind. transitions/apluggy/asyncio are modelled, not verified.',
         technique='Lean 4 proofs over a deterministic API-level model + generated FSM table (translator) + differential correspondence with a simulated child under a permuting event loop'),
+    'C02': dict(
+        text=('Theorems over model A: an accepted run starts exactly one child and reports running under the run\'s number; every started run finishes '
+              '— whatever else the environment does (prompts, commands, signals), as soon as the child exits with a result or with none (terminated, '
+              'killed, hard exit) the state becomes finished (closed if a close() was waiting), no child is alive, every waiter is released, the result '
+              'reported is that of this run and the arguments are withdrawn; the run record is reported finished exactly once under the same number and '
+              'nothing before the exit reports on run_info; while running no result is reported; a second exit notification does nothing. Tied to '
+              '/repo by (1) exact correspondence of model A on serial histories where runs end in every way the simulated child can end and (2) a '
+              'real-process sweep: ending kind × signal delivery point (k-th open prompt, before the first prompt, during a sleep) × script shape, '
+              'each case in its own sub-process with a wall-clock bound, observed (states, run_info, result, exception, waiter released, exit code) '
+              'against the prediction.'),
+        design='§6 C02, §5 models A/G',
+        note=COMMON_NOTE + 'Partial by nature below the FSM: pipes, signals and process reaping are CPython/OS behaviour, covered only by the '
+             'real-process sweep. Premise of the liveness half: the child eventually exits. Open known findings matched by mechanism/signature: F-G3 '
+             '(child dies holding the queue write lock ⇒ run never finishes), F-G2, F-G1. F-H1 found and fixed.',
+        technique='Lean 4 proofs over a deterministic API-level model + differential correspondence with a simulated child + real-process ending/signal sweep'),
+    'C06': dict(
+        text=('Theorems over model D1 (event-emitting trace pipeline: entity→trace mapping, thread/task numbering, nested blocks, global counters) for '
+              'every interleaving of entities: trace numbers are never reused and two live traces never belong to one entity; the thread number is a '
+              'function of the OS thread and injective, task numbers are given to exactly one trace within a thread number, threads have no task number; '
+              'every event an action of an entity emits carries that entity\'s trace number (full statement false only for the two actions of an entity '
+              'without a trace, which emit nothing — proved as attribution_partial/_of_traced/_of_live); an action of one entity leaves every other '
+              'trace untouched, and its enabledness and output do not depend on the phase of any other trace (an unanswered prompt blocks nobody else). '
+              'Tied to /repo by model acceptance of the event streams emitted by the real trace machinery on generated programs with up to 3 threads and '
+              '3 tasks (nested, sequential, executor threads), and an oracle using code locations as ground truth for the producing entity, incl. a '
+              'responder that withholds one thread\'s answer until nothing else moves.'),
+        design='§6 C06, §5 model D1',
+        note=COMMON_NOTE + 'Not exhibited by the model: GIL/OS scheduling and blocking inside multiprocessing.Queue.put — covered only by the runs.',
+        technique='Lean 4 invariant/frame proofs over an LTS + trace-acceptance correspondence of real event streams + location-based oracle'),
+    'C09': dict(
+        text=('Theorems over model D1 for every interleaving of entities and every sequence of their actions incl. aborts at any nesting level and '
+              'entities that never finish: the emitted stream is accepted by the very grammar the main-process registrars rely on (Reg.wrun of C11): per '
+              'trace start, trace calls each optionally holding one command loop with prompt start/end pairs, end; matching numbers; nothing outside '
+              'start…end; trace numbers 1,2,3… in start order, trace-call and prompt numbers strictly increasing over the run; an abort closes everything '
+              'open innermost first; every event class carries run_no (generated field table). Tied to /repo by model acceptance (same nesting, same '
+              'numbers) of streams emitted by the real trace machinery in-process on generated programs × policies (step/next/continue/return/until/'
+              'mixes/decoys/non-resuming commands) and by real spawn children with SIGINT at an open prompt (child-side probe), plus a stack-checker oracle.'),
+        design='§6 C09, §5 model D1',
+        note=COMMON_NOTE + 'That CPython invokes the trace function as the model\'s labels say (no nested trace calls within a trace) is assumed and exercised.',
+        technique='Lean 4 simulation proof (emitter LTS refines the consumer grammar) + trace-acceptance correspondence of real event streams'),
+    'C10': dict(
+        text=('Theorems over model F (FIFO channel, monitor task, drain loop, sentinel, run-start/run-end notifications, kill cutting the channel) for '
+              'every schedule and kill point: delivered is a prefix of emitted (each once, in order); unless a kill cut the stream delivered ++ in hand ++ '
+              'in channel = emitted; at run-end everything emitted has been delivered (also when the drain loop gives up: the sentinel is queued behind '
+              'the backlog); run-end comes last and once, after it no step can add an observation; under the premise that the monitor does not dequeue '
+              'before run-start was issued every delivery follows run-start (and the premise is shown necessary); the relay never gets stuck once the '
+              'child is gone. Tied to /repo by trace acceptance of the real RunSession/relay_events/monitor with a simulated child and channel under the '
+              'permuting loop (bursts, slow plugins, exit with backlog, kills keeping 0..all pending items) and by real children printing bursts right '
+              'before exiting (child-side probe log vs recording plugin).'),
+        design='§6 C10, §5 model F',
+        note=COMMON_NOTE + 'Not exhibited: byte-level truncation of a pickled event; a child dying while holding the queue write lock (open finding F-G3).',
+        technique='Lean 4 invariant proof over an LTS + trace-acceptance correspondence under a permuting event loop + real-process bursts'),
 }
 
 REASON_TODO = 'check not built yet in this revision of /verif (planned, see DESIGN.md §6); not claimed until its theorems and correspondence exist'
